@@ -220,6 +220,32 @@ func (a *analysis) oracleC04() verdict {
 				return a.fv("output-during-delay", "output write at t=%d while the render delay had not been released (released at t=%d)", f.T0, rel)
 			}
 		}
+		// ... and the delay does end: render cycles that began well after the release
+		// write their frames (the switch to the real output competes with pending refresh requests, one fair coin per cycle: ten lost in a row is a one in a thousand event even when a request is always pending)
+		if rel != math.MaxInt64 && !a.errCycle && sc.OutFailAt == 0 && len(a.frames) == 0 {
+			var relRet int64
+			for _, o := range a.hist() {
+				if o.Op.K == "release" {
+					relRet = o.Ret
+				}
+			}
+			cycles, rows := 0, 0
+			for _, h := range a.hooks() {
+				if relRet != 0 && h.T > relRet {
+					switch h.P {
+					case hpRenderBegin:
+						cycles++
+					case hpFlushWrite:
+						if cycles >= 10 && h.A > 0 {
+							rows++
+						}
+					}
+				}
+			}
+			if rows > 0 {
+				return a.fv("no-frame-after-delay", "the render delay was released at t=%d; %d render cycles began after that, %d of them (from the tenth on) flushed bar rows, yet not a byte reached the output", relRet, cycles, rows)
+			}
+		}
 	}
 	if a.errCycle || sc.OutFailAt > 0 {
 		return inconclusive("render error in scenario")
